@@ -215,7 +215,7 @@ theorem pullMetaEvents_meta (cs : CharSpec) (ext : Ext) (input : List Char) :
 theorem IsMetaEv.evOK' {ev : Ev α} (h : IsMetaEv ev) : EvOK' ev := by
   cases ev <;> first | trivial | cases h
 
-theorem IsMetaEv.spanOK {ev : Ev α} (input : Str) (h : IsMetaEv ev) : SpanOK input ev := by
+theorem IsMetaEv.spanOK {ev : Ev α} (input : Str) (h : IsMetaEv ev) : CompSpanOnBoundaries input ev := by
   intro sp hsp
   cases ev <;> first | (cases h; done) | (simp [evSpan] at hsp)
 
